@@ -21,6 +21,8 @@ API (everything else in this module is private):
 * ``same_outputs(a, b) -> None | str``   exact positional comparison (dtype, shape, values; NaN == NaN)
 * ``required_inputs(proto)``, ``to_proto(model)``, ``checker_class(message)``, ``FEATURES``, ``EVALUATORS``,
   ``RUNNERS`` (evaluator name -> ``run_*_many``)
+* ``EXTRA_FEATURES`` (``ALL_FEATURES`` = both): features drawn only with ``extra=True`` (``choose_features``,
+  ``model_from_seed``, ``gen_model``, ``gen_checked``); naming them explicitly in ``features`` always works
 
 Evaluator discipline: an evaluator either returns outputs or a structured 'cannot run'
 (``RunResult.reason``).  Things an evaluator is known to get *silently* wrong are refused up front by
@@ -1130,10 +1132,14 @@ class _Builder:
         self.observe += self.gen_if(m, rng, then_hook=sib, out_types=[T])
         self.observe.append(after)
         pool = [before.v.name, after.v.name, cond.v.name, sibling] + call_out_names
-        pool += [t.v.name for t in dec.sample(m.inputs + m.inits, min(2, len(m.inputs + m.inits)))]
+        # (drawn from a generator of its own: what the rest of ``dec`` decides must not depend on the size of the pool)
+        pool += [t.v.name for t in random.Random(dec.random()).sample(m.inputs + m.inits, min(2, len(m.inputs + m.inits)))]
 
         # ---- reuse them inside the functions: every name at most once per function (its scopes stay SSA)
         def reuse(function: ir.Function, actual: str, names: list[str]) -> None:
+            # which values: depends on the structure of the function only; which names: a generator of its own
+            # (the number of distinct names in the pool varies with the rest of the model)
+            r_sel, r_names = random.Random(dec.random()), random.Random(dec.random())
             nested, top = [], []
             for sub in function.subgraphs():
                 if formals:
@@ -1141,13 +1147,14 @@ class _Builder:
                 else:
                     nested += [o for n in sub for o in n.outputs]
             top += list(function.inputs) + [o for n in function for o in n.outputs]
-            names = list(dict.fromkeys(n for n in names if n and n != actual))
-            dec.shuffle(nested)
-            dec.shuffle(top)
-            chosen = nested[: dec.choice([1, 2, 3])] + [v for v in top if dec.random() < 0.4]
-            dec.shuffle(names)
+            r_sel.shuffle(nested)
+            r_sel.shuffle(top)
+            chosen = nested[: r_sel.choice([1, 2, 3])] + [v for v in top if r_sel.random() < 0.4]
             # the key pattern first: something defined in a nested body is named like the actual argument
-            names.insert(0 if dec.random() < 0.75 else dec.randrange(len(names) + 1), actual)
+            first = r_names.random() < 0.75
+            names = list(dict.fromkeys(n for n in names if n and n != actual))
+            r_names.shuffle(names)
+            names.insert(0 if first else r_names.randrange(len(names) + 1), actual)
             for v, name in zip(chosen, names):
                 v.name = name
         if g is not None:
